@@ -168,6 +168,21 @@ def observe_table(node):
     return ('table', declared, tuple(rows), tuple(sorted(H)), tuple(sorted(V)), tuple(problems))
 
 
+def _release():
+    """Harness hygiene, not an observation: Context.newdef/newcommand name the generated macro class with the *Token*
+    of the control sequence (a str subclass holding ownerDocument).  CPython does not traverse a type's name, so the
+    cycle class -> name -> document -> context -> class is invisible to the collector and every document that executes
+    \\def would stay in memory for the life of the worker (about 100 KB per case).  Replacing the name by a plain str
+    after the case has been observed makes the dead document collectable again."""
+    import plasTeX
+    for base in (plasTeX.Definition, plasTeX.NewCommand):
+        for c in base.__subclasses__():
+            if type(c.__name__) is not str:
+                q = str(c.__qualname__)
+                c.__name__ = str(c.__name__)
+                c.__qualname__ = q
+
+
 def observe(src):
     from plasTeX.TeX import TeX
     state.reset()
@@ -182,6 +197,8 @@ def observe(src):
         return ('timeout',)
     except Exception as e:
         return ('raises', type(e).__name__, str(e)[:100])
+    finally:
+        _release()
     return obs
 
 
@@ -354,6 +371,8 @@ def gen_T2(n, r, maxmc, pair, clines=True):
     which, mcspec = T2_PAIRS[pair]
     cols, bars = _pair(n, which)
     for lay in layouts(n, r, maxmc):
+        if pair in (2, 3) and not any(mc for sh in lay for s, mc in sh):
+            continue        # without a \\multicolumn the table equals the one of the pair with the same preamble
         rows = [[[s, mcspec if mc else None, 'M'] for s, mc in sh] for sh in lay]
         for rules in rule_sets(rows, n, clines):
             yield {'fam': 'table', 'ast': t_ast(cols, bars, rows, rules)}
@@ -637,6 +656,22 @@ def plan(tier):
     return p
 
 
+SUMMARY = {
+    'quick': ('lists: all labelled trees depth<=3, <=3 items/list, <=3 items in total (article class and blank-line spelling: '
+              '<=2 in total); all shapes depth<=3 with <=2 items/list (any size) and with <=3 items/list up to 6 items, 18 '
+              'labellings each. tables: preambles of 1-3 columns (types lcrp, lcp for 3 columns); span/rule grids 1-3 x 1-3 '
+              'with <=2 multicolumns (3x3 with all bars: <=1); cline pairs and vertical-bar families up to 3x2; cell '
+              'contents 1x1..3x1 full menu of 13, 2x2 menu of 6, 3x2 and 2x3 menu of 4'),
+    'thorough': ('lists: all labelled trees depth<=4, <=3 items/list, <=4 items in total (article / blank-line spelling: <=3); '
+                 'all shapes depth<=4 with <=2 items/list (3 labellings), depth<=3 with <=3 items/list up to 8 items and '
+                 'depth 4 with <=3 items/list up to 7 items (18 labellings). tables: preambles of 1-5 columns (types lcrp up '
+                 'to 3, lcp for 4, lp for 5); span/rule grids 1-4 x 1-3 with <=2 multicolumns and 5 preamble/spec pairs '
+                 '(4x3: <=1 for pairs 2-5), 1-5 x 4 and 5x3 with <=1 multicolumn; cline pairs up to 3x3, 4x2, 5x1; '
+                 'vertical-bar family up to 3x3, 4x2, 5x1; cell contents up to 2x2 full menu of 13, 3x2/2x3 menu of 6, '
+                 '3x3 menu of 3, 5x2/4x3 menu of 2'),
+}
+
+
 def cases_of(block):
     fam, args, idx, nstr, extra = block
     gen = FAMILIES[fam](*args)
@@ -689,6 +724,7 @@ def run(tier, seed, rep):
         for i in range(nstr):
             blocks.append((fam, args, i, nstr, extra))
         bounds.setdefault(fam, []).append({'args': core.jsonable(args), 'extra': extra})
+    bounds['summary'] = SUMMARY[tier]
     blocks = core.rotate(blocks, seed)
     core.merge_all(run_block, blocks, rep)
     return {'exhaustive': True, 'bounds': bounds, 'blocks': len(blocks),
